@@ -23,8 +23,10 @@ EXC_OF = {"EIO": "OSError", "EPIPE": "BrokenPipeError", "ENOSPC": "OSError", "cl
 
 
 class FaultyStream:
-    def __init__(self, fail_at=None, die=False, probe=None, error="EIO"):
+    def __init__(self, fail_at=None, die=False, probe=None, error="EIO", once=False):
         self.calls = []  # ("w", bytes) | ("f",)
+        self.once = once          # a transient fault: only the first attempt of that call fails, a repetition goes through
+        self.fired = False
         self.fail_at = fail_at
         self.die = die
         self.error = error
@@ -35,7 +37,8 @@ class FaultyStream:
     def _tick(self, kind, data=None):
         if self.probe is not None:
             self.probe_log.append(self.probe())
-        if self.fail_at is not None and len(self.calls) == self.fail_at:
+        if self.fail_at is not None and len(self.calls) == self.fail_at and not (self.once and self.fired):
+            self.fired = True
             if self.die:
                 os._exit(77)
             # the ways a stream fails: an I/O error, the reader of a pipe gone (BrokenPipeError), the device full, a
@@ -170,7 +173,7 @@ def child_main(work, plan):
             obs["probe"] = []
         else:
             probe_conn = sqlite3.connect(db)
-            s = FaultyStream(fail_at=j, error=case.get("error", "EIO"), probe=lambda: probe_conn.execute("SELECT upload_time FROM upload WHERE id=? AND terminal='term-X'", (inst.id,)).fetchone())
+            s = FaultyStream(fail_at=j, error=case.get("error", "EIO"), once=bool(case.get("once")), probe=lambda: probe_conn.execute("SELECT upload_time FROM upload WHERE id=? AND terminal='term-X'", (inst.id,)).fetchone())
             t = mk(s)
             try:
                 t.upload(imgs[case["image"]], force_upload=case["force"])
@@ -238,6 +241,8 @@ def run(ctx, model):
             if j in (js[0], js[len(js) // 2], js[-1]) or not ctx.quick():
                 for err in ("EPIPE", "ENOSPC", "closed"):
                     plan.append(dict(case, fail_at=j, die=False, probe_only=False, error=err))
+                # a transient fault (the same call would succeed if repeated): the error still reaches the caller
+                plan.append(dict(case, fail_at=j, die=False, probe_only=False, once=True))
             if (not ctx.quick() or j in (js[0], js[len(js) // 2], js[-1])):
                 plan.append(dict(case, fail_at=j, die=True, probe_only=False))
     # phase 2: all fault points (split into a few sandbox runs)
@@ -280,6 +285,8 @@ def run(ctx, model):
         wanted = case["force"] or obs.get("needs_before", True)
         label = {k: case[k] for k in ("method", "image", "max_command_size", "previous", "force", "fail_at", "die")}
         label["error"] = case.get("error", "EIO")
+        if case.get("once"):
+            label["once"] = True
         label["calls_in_full_transmission"] = len(ref)
         cov.add(label, nontrivial=j is not None and j > 0, klass=f"{case['method']}/calls={len(ref)}/prev={int(case['previous'])}/force={int(case['force'])}/" + ("nofault" if j is None else "die" if case["die"] else "raise"))
         # ---- correspondence
